@@ -57,8 +57,57 @@ def cases(seed, tier):
         layouts.append([a, N // a + 1])          # product > N
         layouts.append([2, 2, N // 4 + 1])       # depth 3, product >= N
         out.append({"spec": spec, "cuts": cuts, "solver": solver, "backend": backend, "layouts": layouts,
-                    "manual": bool(k % 3 == 0), "piece_layout": f, "trainable": bool(k % 2 == 1)})
+                    "manual": bool(k % 3 == 0), "piece_layout": f, "trainable": bool(k % 2 == 1),
+                    # a quarter of the cases: inputs are CLAMPS only (a permanent clamp on the module + a per-call data_clamp), no stimulus
+                    "perm_clamp": bool(k % 4 == 2)})
     return out
+
+
+def _perm_clamp(case, rec, m, recs, kw):
+    """equal pieces; the module keeps a permanent (constant) voltage clamp, every call brings its own data_clamp on another compartment
+    and no data_stimuli; the same module object is used for all pieces, nothing is deleted in between"""
+    import jax.numpy as jnp
+    import jaxley as jx
+    from jxmon.core import Refused
+    spec = case["spec"]
+    n = len(m.nodes)
+    npieces = 2 if spec["T"] % 3 else 3
+    L = spec["T"] // npieces
+    N = L * npieces
+    wc = -60.0 + 15.0 * np.sin(np.arange(N) * 0.7)
+    mf, _ = models.build_active(spec, stimulate=False)
+    mf.select(nodes=[0]).clamp("v", jnp.full(N, -55.0), verbose=False)
+    m.select(nodes=[0]).clamp("v", jnp.full(L, -55.0), verbose=False)
+    tag = dict(kind=spec["struct"]["kind"], solver=kw["solver"], backend=kw["voltage_solver"], N=N, pieces=npieces, mode="permanent clamp + data_clamp, no stimulus")
+    try:
+        A = np.asarray(rec.call("split", jx.integrate, mf, data_clamps=mf.select(nodes=[n - 1]).data_clamp("v", jnp.asarray(wc), None),
+                                where="one call (clamps only)", **kw))
+    except Refused:
+        return
+    if not np.all(np.isfinite(A)) or np.max(np.abs(A)) > 1e4:
+        rec.skipped("split", "reference run not finite / unstable")
+        return
+    scale = 1 + np.abs(A)
+    states = None
+    before = {k: np.asarray(v).tolist() for k, v in m.external_inds.items()}
+    for pi in range(npieces):
+        lo, hi = pi * L, (pi + 1) * L
+        try:
+            out, states = jx.integrate(m, data_clamps=m.select(nodes=[n - 1]).data_clamp("v", jnp.asarray(wc[lo:hi]), None), all_states=states,
+                                       return_states=True, **kw)
+        except Exception as e:  # the single call was accepted: a continuation of it must be, too
+            rec.violated("split", what="a continuation call raised although the single call over the same inputs was accepted", piece=pi,
+                         error=f"{type(e).__name__}: {str(e)[:160]}", external_inds_before=before,
+                         external_inds_now={k: np.asarray(v).tolist() for k, v in m.external_inds.items()}, **tag)
+            return
+        out = np.asarray(out)
+        want = A[:, lo:hi + 1]
+        good = out.shape == want.shape and np.max(np.abs(out - want) / scale[:, lo:hi + 1]) <= TOL
+        rec.check("split", good, piece=pi, lo=lo, hi=hi, max_dev=float(np.max(np.abs(out - want))) if out.shape == want.shape else None, **tag)
+    now = {k: np.asarray(v).tolist() for k, v in m.external_inds.items()}
+    rec.check("split", now == before, what="integrate changed the module's own external_inds (a per-call data_clamp leaked into the module)",
+              external_inds_before=before, external_inds_now=now, **tag)
+    rec.sig(f"{tag['kind']}|{tag['solver']}|{tag['backend']}|permclamp{npieces}")
 
 
 def run_case(case, rec):
@@ -72,6 +121,8 @@ def run_case(case, rec):
     solver, backend = case["solver"], case["backend"]
     m, recs = rec.call("build", models.build_active, spec, stimulate=False)
     kw = dict(delta_t=dt, solver=solver, voltage_solver=backend)
+    if case.get("perm_clamp") and len(m.nodes) >= 2 and N >= 4:
+        return _perm_clamp(case, rec, m, recs, kw)
     params = []
     if case.get("trainable"):
         # trainable initial states and one parameter, with values that differ from the tables: on continuation the passed
